@@ -46,7 +46,7 @@ theorem incW_word (L : Layout) (σ : SrcSt) (s : String) (f : Nat) :
   by_cases h : σ.mem.read (L s) + 1 = 0
   · refine ⟨{ σ with mem := (σ.mem.write (L s) (σ.mem.read (L s) + 1)).write (L s + 1) (σ.mem.read (L s + 1) + 1) }, ?_, ?_, rfl, rfl, ?_⟩
     · have hb : (σ.mem.read (L s) + 1 == 0) = true := by rw [beq_iff_eq]; exact h
-      simp only [incW, sem, rspec, evalCond, wr, rval, val, LV.ra, elAddr, Mem.read_write_same, hb, if_true]
+      simp only [incW, sem, rspec, evalCond_cmp, evalCond_truth, evalCond_nottruth, evalCond_cmpE, evalCond_truthE, evalCond_not, evalCond_and, evalCond_or, condEff_cmp, condEff_truth, condEff_nottruth, condEff_cmpE, condEff_truthE, condEff_not, condEff_and, condEff_or, wr, rval, val, LV.ra, elAddr, Mem.read_write_same, hb, if_true]
       rw [show (BitVec.ofNat 16 1 : Word) = 1 from rfl, hr1]
     · simp only [wordAt, Mem.read_write_same, Mem.read_write_other _ _ _ _ hne]
       exact word_succ_carry _ _ h
@@ -54,7 +54,7 @@ theorem incW_word (L : Layout) (σ : SrcSt) (s : String) (f : Nat) :
       exact (Mem.read_write_other _ _ _ _ (Ne.symm h2)).trans (Mem.read_write_other _ _ _ _ (Ne.symm h1))
   · refine ⟨{ σ with mem := σ.mem.write (L s) (σ.mem.read (L s) + 1) }, ?_, ?_, rfl, rfl, ?_⟩
     · have hb : (σ.mem.read (L s) + 1 == 0) = false := by rw [beq_eq_false_iff_ne]; exact h
-      simp only [incW, sem, rspec, evalCond, wr, rval, val, LV.ra, Mem.read_write_same, hb]
+      simp only [incW, sem, rspec, evalCond_cmp, evalCond_truth, evalCond_nottruth, evalCond_cmpE, evalCond_truthE, evalCond_not, evalCond_and, evalCond_or, condEff_cmp, condEff_truth, condEff_nottruth, condEff_cmpE, condEff_truthE, condEff_not, condEff_and, condEff_or, wr, rval, val, LV.ra, Mem.read_write_same, hb]
       rfl
     · simp only [wordAt, Mem.read_write_same, hr1]
       exact word_succ_plain _ _ h
@@ -71,7 +71,7 @@ theorem decW_word (L : Layout) (σ : SrcSt) (s : String) (f : Nat) :
     · have hb : (σ.mem.read (L s) == 0) = true := by rw [beq_iff_eq]; exact h
       have hr : (σ.mem.write (L s + 1) (σ.mem.read (L s + 1) - 1)).read (L s) = σ.mem.read (L s) :=
         Mem.read_write_other _ _ _ _ hne
-      simp only [decW, sem, rspec, evalCond, wr, rval, val, LV.ra, elAddr, hb, if_true]
+      simp only [decW, sem, rspec, evalCond_cmp, evalCond_truth, evalCond_nottruth, evalCond_cmpE, evalCond_truthE, evalCond_not, evalCond_and, evalCond_or, condEff_cmp, condEff_truth, condEff_nottruth, condEff_cmpE, condEff_truthE, condEff_not, condEff_and, condEff_or, wr, rval, val, LV.ra, elAddr, hb, if_true]
       rw [show (BitVec.ofNat 16 1 : Word) = 1 from rfl, hr]
     · simp only [wordAt, Mem.read_write_same, Mem.read_write_other _ _ _ _ (Ne.symm hne)]
       rw [h]
@@ -80,7 +80,7 @@ theorem decW_word (L : Layout) (σ : SrcSt) (s : String) (f : Nat) :
       exact (Mem.read_write_other _ _ _ _ (Ne.symm h1)).trans (Mem.read_write_other _ _ _ _ (Ne.symm h2))
   · refine ⟨{ σ with mem := σ.mem.write (L s) (σ.mem.read (L s) - 1) }, ?_, ?_, rfl, rfl, ?_⟩
     · have hb : (σ.mem.read (L s) == 0) = false := by rw [beq_eq_false_iff_ne]; exact h
-      simp only [decW, sem, rspec, evalCond, wr, rval, val, LV.ra, hb]
+      simp only [decW, sem, rspec, evalCond_cmp, evalCond_truth, evalCond_nottruth, evalCond_cmpE, evalCond_truthE, evalCond_not, evalCond_and, evalCond_or, condEff_cmp, condEff_truth, condEff_nottruth, condEff_cmpE, condEff_truthE, condEff_not, condEff_and, condEff_or, wr, rval, val, LV.ra, hb]
       rfl
     · simp only [wordAt, Mem.read_write_same, Mem.read_write_other _ _ _ _ (Ne.symm hne)]
       exact word_pred_plain _ _ h
